@@ -48,17 +48,17 @@ type Conn struct {
 	SC   *hb.ServerConn
 	Srv  *hb.Server
 
-	mu      sync.Mutex
-	rbuf    []byte
-	rerr    error // delivered after rbuf is drained
-	closed  bool  // closed by the client
-	rdl     time.Time
-	wdl     time.Time
-	rwake   chan struct{}
-	ops     int
-	outq    []byte // response bytes produced by the server, not yet delivered
-	frames  []int  // lengths of the frames in outq (for frame-aligned delivery)
-	broken  bool   // write side broken (server gone)
+	mu         sync.Mutex
+	rbuf       []byte
+	rerr       error // delivered after rbuf is drained
+	closed     bool  // closed by the client
+	rdl        time.Time
+	wdl        time.Time
+	rwake      chan struct{}
+	ops        int
+	outq       []byte // response bytes produced by the server, not yet delivered
+	frames     []int  // lengths of the frames in outq (for frame-aligned delivery)
+	broken     bool   // write side broken (server gone)
 	ClosedAt   time.Duration
 	ClosedStep uint64
 	OpenedAt   time.Duration
@@ -74,9 +74,9 @@ type Conn struct {
 	Writes, Reads int
 	ReqWritten    int
 	RespConsumed  int
-	Produced      int // response bytes produced by the server on this connection
-	RespCount     int // response frames produced
-	ReadMark      int // bytes the reader had consumed when it last asked for more
+	Produced      int         // response bytes produced by the server on this connection
+	RespCount     int         // response frames produced
+	ReadMark      int         // bytes the reader had consumed when it last asked for more
 	Marks         [][2]uint64 // (ReadMark, scheduler step) history
 }
 
@@ -96,9 +96,11 @@ func (a simAddr) String() string  { return string(a) }
 // Dial is the RegionDialer handed to the client.
 func (e *Env) Dial(ctx context.Context, network, addr string) (net.Conn, error) {
 	simrt.Yield("simnet:Dial")
-	if e.frozen {
+	if e.frozen.Load() {
 		return nil, net.ErrClosed
 	}
+	e.mu.Lock()
+	defer e.mu.Unlock()
 	e.NDials++
 	rec := &DialRec{N: e.NDials, Addr: addr, Step: e.Step, At: e.Now()}
 	e.Dials = append(e.Dials, rec)
@@ -149,9 +151,10 @@ func (c *Conn) signal() {
 
 func (c *Conn) Read(p []byte) (int, error) {
 	simrt.Yield("simnet:Read")
-	if c.env.frozen {
+	if c.env.frozen.Load() {
 		return 0, net.ErrClosed
 	}
+	c.env.mu.Lock()
 	c.mu.Lock()
 	c.Reads++
 	if c.ReadBytes > c.ReadMark {
@@ -161,13 +164,17 @@ func (c *Conn) Read(p []byte) (int, error) {
 	}
 	if f := c.fault("read"); f != nil {
 		c.mu.Unlock()
+		c.env.mu.Unlock()
 		return 0, &net.OpError{Op: "read", Net: "sim", Err: errors.New("injected read error")}
 	}
 	c.mu.Unlock()
+	c.env.mu.Unlock()
 	for {
+		c.env.mu.Lock()
 		c.mu.Lock()
-		if c.closed || c.env.frozen {
+		if c.closed || c.env.frozen.Load() {
 			c.mu.Unlock()
+			c.env.mu.Unlock()
 			return 0, &net.OpError{Op: "read", Net: "sim", Err: net.ErrClosed}
 		}
 		if len(c.rbuf) > 0 {
@@ -175,11 +182,13 @@ func (c *Conn) Read(p []byte) (int, error) {
 			c.rbuf = c.rbuf[n:]
 			c.ReadBytes += n
 			c.mu.Unlock()
+			c.env.mu.Unlock()
 			return n, nil
 		}
 		if c.rerr != nil {
 			err := c.rerr
 			c.mu.Unlock()
+			c.env.mu.Unlock()
 			return 0, err
 		}
 		dl := c.rdl
@@ -188,10 +197,12 @@ func (c *Conn) Read(p []byte) (int, error) {
 			c.Death = append(c.Death, "read deadline expired")
 			c.mu.Unlock()
 			c.env.Ev("c%d read timeout", c.N)
+			c.env.mu.Unlock()
 			return 0, errTimeout
 		}
 		ch := c.rwake
 		c.mu.Unlock()
+		c.env.mu.Unlock()
 		if dl.IsZero() {
 			<-ch
 		} else {
@@ -208,9 +219,11 @@ func (c *Conn) Read(p []byte) (int, error) {
 
 func (c *Conn) Write(p []byte) (int, error) {
 	simrt.Yield("simnet:Write")
-	if c.env.frozen {
+	if c.env.frozen.Load() {
 		return 0, net.ErrClosed
 	}
+	c.env.mu.Lock()
+	defer c.env.mu.Unlock()
 	c.mu.Lock()
 	defer c.mu.Unlock()
 	c.Writes++
@@ -254,9 +267,11 @@ func (c *Conn) feed(p []byte) {
 
 func (c *Conn) Close() error {
 	simrt.Yield("simnet:Close")
-	if c.env.frozen {
+	if c.env.frozen.Load() {
 		return nil
 	}
+	c.env.mu.Lock()
+	defer c.env.mu.Unlock()
 	c.mu.Lock()
 	defer c.mu.Unlock()
 	if f := c.fault("close"); f != nil {
@@ -293,9 +308,11 @@ func (c *Conn) SetDeadline(t time.Time) error {
 
 func (c *Conn) SetReadDeadline(t time.Time) error {
 	simrt.Yield("simnet:SetReadDeadline")
-	if c.env.frozen {
+	if c.env.frozen.Load() {
 		return net.ErrClosed
 	}
+	c.env.mu.Lock()
+	defer c.env.mu.Unlock()
 	c.mu.Lock()
 	defer c.mu.Unlock()
 	if f := c.fault("deadline"); f != nil {
@@ -311,9 +328,11 @@ func (c *Conn) SetReadDeadline(t time.Time) error {
 
 func (c *Conn) SetWriteDeadline(t time.Time) error {
 	simrt.Yield("simnet:SetWriteDeadline")
-	if c.env.frozen {
+	if c.env.frozen.Load() {
 		return net.ErrClosed
 	}
+	c.env.mu.Lock()
+	defer c.env.mu.Unlock()
 	c.mu.Lock()
 	defer c.mu.Unlock()
 	if f := c.fault("deadline"); f != nil {
@@ -491,14 +510,19 @@ type ZKQuery struct {
 func (z *ZK) LocateResource(r zk.ResourceName) (string, error) {
 	simrt.Yield("simzk:Locate")
 	e := z.env
-	if e.frozen {
+	if e.frozen.Load() {
 		return "", errors.New("zk: closed")
 	}
+	e.mu.Lock()
 	q := ZKQuery{Res: string(r), At: e.Now(), Step: e.Step}
-	if z.Delay > 0 {
-		time.Sleep(z.Delay)
+	delay := z.Delay
+	e.mu.Unlock()
+	if delay > 0 {
+		time.Sleep(delay)
 		simrt.Woke("simzk:Locate")
 	}
+	e.mu.Lock()
+	defer e.mu.Unlock()
 	if z.Fail != 0 {
 		if z.Fail > 0 {
 			z.Fail--
